@@ -176,6 +176,14 @@ func (c *AppenderRefs) writeToAppenders(l Level, b []byte) {
 	}
 }
 
+// writeRawToAppenders forwards raw bytes to every child appender.
+// Raw writes carry no level, so no level filtering applies.
+func (c *AppenderRefs) writeRawToAppenders(b []byte) {
+	for _, r := range c.AppenderRefs {
+		r.Write(b)
+	}
+}
+
 // SyncLogger is a synchronous logger that immediately forwards events to appenders.
 type SyncLogger struct {
 	LoggerBase
@@ -200,7 +208,7 @@ func (c *SyncLogger) Append(e *Event) {
 
 // Write writes raw bytes directly to appenders.
 func (c *SyncLogger) Write(b []byte) {
-	c.writeToAppenders(MaxLevel, b)
+	c.writeRawToAppenders(b)
 }
 
 // BufferFullPolicy specifies what to do when an async buffer is full.
@@ -272,7 +280,7 @@ func (c *AsyncLogger) Start() error {
 				}
 				PutEvent(x)
 			case []byte:
-				c.writeToAppenders(MaxLevel, x)
+				c.writeRawToAppenders(x)
 			default: // for linter
 			}
 		}
@@ -298,6 +306,7 @@ func (c *AsyncLogger) Append(e *Event) {
 // Write enqueues raw bytes into the buffer.
 // Behavior on full buffer depends on BufferFullPolicy.
 func (c *AsyncLogger) Write(b []byte) {
+	b = append([]byte{}, b...) // the caller may reuse its buffer
 	select {
 	case c.buf <- b:
 	default:
